@@ -11,7 +11,7 @@
 (*                                                                         *)
 (* Acceptance: POSTCONDITION Accepted -- the search reached the last line. *)
 (***************************************************************************)
-EXTENDS PenguinMux, Json, IOUtils, Integers
+EXTENDS Bridge, Json, IOUtils, Integers
 
 Rec == ndJsonDeserialize(IOEnv.TRACE)
 
@@ -179,11 +179,18 @@ TTask ==
      /\ SeqEq(st'.obs.sent, r.sent, r.e)
      (* every waiter the specification says must be woken by this poll was woken *)
      /\ \A w \in st'.obs.wake :
-           LET nm == CASE w.k = "w" -> "w:" \o w.e \o ":" \o ToString(NameOf(w.e, w.x))
+           LET bridged == w.k \in {"w", "r"} /\ st.hnd[w.e][w.x].st = "bridge"
+               bidx == IF bridged THEN CHOOSE b \in DOMAIN st.br[w.e] : st.br[w.e][b].h = w.x ELSE 0
+               nm == CASE bridged -> "br:" \o w.e \o ":" \o ToString(bidx)
+                       [] w.k = "w" -> "w:" \o w.e \o ":" \o ToString(NameOf(w.e, w.x))
                        [] w.k = "r" -> "r:" \o w.e \o ":" \o ToString(NameOf(w.e, w.x))
                        [] w.k = "c" -> "c:" \o w.e \o ":" \o ToString(w.x)
                        [] OTHER -> ""
-           IN (w.k \in {"w", "r"} /\ NameOf(w.e, w.x) = 0) \/ nm = "" \/ \E k \in 1 .. Len(r.woke) : r.woke[k] = nm
+               (* a waiter registered by the application before the stream was handed to a bridge keeps
+                  the application's waker until the bridge registers its own *)
+               nm2 == IF bridged THEN w.k \o ":" \o w.e \o ":" \o ToString(NameOf(w.e, w.x)) ELSE nm
+           IN (~bridged /\ w.k \in {"w", "r"} /\ NameOf(w.e, w.x) = 0) \/ nm = ""
+              \/ \E k \in 1 .. Len(r.woke) : r.woke[k] = nm \/ r.woke[k] = nm2
      /\ UNCHANGED hm
 
 TFault ==
@@ -212,6 +219,35 @@ TTake ==
      /\ st' = [st EXCEPT !.wire[Peer(r.e)] = Tail(@), !.obs = NoObs]
      /\ UNCHANGED hm
 
+(* ---- the bridge (C13) ---- *)
+JAns(j) == Ans(j.k, j.n)
+JEnv(j) == [rd |-> [i \in 1 .. Len(j.rd) |-> JAns(j.rd[i])], wr |-> [i \in 1 .. Len(j.wr) |-> JAns(j.wr[i])],
+            fl |-> JAns(j.fl), sh |-> JAns(j.sh)]
+TBridgeStart ==
+  /\ Is("bridge_start")
+  /\ st' \in BridgeStart(st, R.e, H(R.e, R.h)) /\ st'.obs.h = R.b /\ UNCHANGED hm
+TBridgePoll ==
+  /\ Is("bridge_poll")
+  /\ LET r == R IN
+     /\ st' \in BridgePoll(st, r.e, r.b, JEnv(r.env))
+     /\ st'.obs.res = r.res
+     /\ r.res = "ok" => st'.obs.id = r.rn /\ st'.obs.port = r.wn
+     (* bytes handed to the local side in this poll: same runs, in order *)
+     /\ Len(st'.obs.sent) = Len(r.lw)
+     /\ \A k \in 1 .. Len(r.lw) :
+           LET m == st'.obs.sent[k] j == r.lw[k] IN
+           /\ m.len = j.n /\ j.okrun /\ j.off = m.off % 32
+           /\ j.w = IF NameOf(Peer(r.e), m.w) = 0 THEN Tag(m.w) ELSE Tag(NameOf(Peer(r.e), m.w))
+     /\ st'.obs.off = r.lc            \* local bytes consumed
+     /\ st'.obs.n = r.shut            \* poll_shutdown calls on the local side
+     /\ st'.obs.bt = r.fl             \* poll_flush called
+     (* a Pending result must leave the waker with every local operation the specification says it waits on *)
+     /\ \A hd \in st'.obs.hold : hd \in {"us_r", "us_w"} \/ \E k \in 1 .. Len(r.holds) : r.holds[k] = hd
+     /\ UNCHANGED hm
+TBridgeDrop ==
+  /\ Is("bridge_drop")
+  /\ st' \in BridgeDrop(st, R.e, R.b) /\ UNCHANGED hm
+
 (* end of one trace inside a batch *)
 TReset ==
   /\ Is("reset")
@@ -235,6 +271,7 @@ Next ==
   \/ TOpen \/ TOpenPoll \/ TAccept \/ TWrite \/ TRead \/ TShutdown \/ TDropS \/ TDropMux
   \/ TDgSend \/ TDgGet \/ TBind \/ TBindPoll \/ TNextBind \/ TBindReply \/ TBindDrop
   \/ TTask \/ TFault \/ TInject \/ TTake \/ TReset \/ TQuiesce
+  \/ TBridgeStart \/ TBridgePoll \/ TBridgeDrop
 
 Spec == Init /\ [][Next]_tvars
 
@@ -272,6 +309,9 @@ ExpStates(s, m, r) ==
     [] r.ev = "bind_reply" -> BindReply(s, r.e, r.r, r.accept)
     [] r.ev = "bind_drop" -> BindDrop(s, r.e, r.r)
     [] r.ev = "task"      -> TaskPoll(s, r.e, r.gr, r.gs)
+    [] r.ev = "bridge_start" -> BridgeStart(s, r.e, HH(m, r.e, r.h))
+    [] r.ev = "bridge_poll"  -> BridgePoll(s, r.e, r.b, JEnv(r.env))
+    [] r.ev = "bridge_drop"  -> BridgeDrop(s, r.e, r.b)
     [] OTHER -> {}
 ObsView(t, m) ==
   [res |-> t.obs.res, n |-> t.obs.n, off |-> t.obs.off, h |-> t.obs.h, id |-> t.obs.id,
@@ -279,7 +319,7 @@ ObsView(t, m) ==
    sent |-> [k \in 1 .. Len(t.obs.sent) |->
                [op |-> t.obs.sent[k].op, id |-> t.obs.sent[k].id, n |-> t.obs.sent[k].n,
                 len |-> t.obs.sent[k].len, off |-> t.obs.sent[k].off]],
-   wake |-> {w.k \o ":" \o w.e \o ":" \o ToString(w.x) : w \in t.obs.wake},
+   wake |-> {w.k \o ":" \o w.e \o ":" \o ToString(w.x) : w \in t.obs.wake}, hold |-> t.obs.hold, ack |-> t.obs.ack, bt |-> t.obs.bt,
    viol |-> t.viol]
 Expected(s, m, r) == SetToSeq({ObsView(t, m) : t \in ExpStates(s, m, r)})
 
